@@ -1,0 +1,16 @@
+//go:build verif
+// +build verif
+
+// Package simhook provides yield points for deterministic simulation.
+package simhook
+
+// Hook, if set, is called at every yield point.
+var Hook func(point, key string)
+
+// Yield marks a scheduling point: a simulator may delay the calling goroutine
+// here and record the event. Call sites hold no lock.
+func Yield(point string, key func() string) {
+	if h := Hook; h != nil {
+		h(point, key())
+	}
+}
